@@ -54,6 +54,12 @@ class P(Prop):
             out.append(dict(op="pw_derivative", ty=ty, segs=sg, meta={"class": cls}))
         for ty in ("Poly0", "Poly3", "Poly8"):
             out.append(dict(op="pw_derivative", ty=ty, segs=[], meta={"class": "piecewise/empty"}))
+        for n in (63, 64, 65, 66, 100, 128, 129, 200):
+            es, sg = G.segs(rng, "Poly3", n, "ints", "int")
+            out.append(dict(op="pw_derivative", ty="Poly3", segs=sg, meta={"class": "piecewise/long"}))
+        for pat in ([1.0, None, 3.0], [1.0, None], [None], [None, None, 2.0], [float("inf"), None]):
+            sg = [[C.NAN_BITS if e is None else C.bits(e)] + G.piece(rng, "Poly2", "int") for e in pat]
+            out.append(dict(op="pw_derivative", ty="Poly2", segs=sg, meta={"class": "piecewise/nan_ends"}))
         return out
 
     def coq_term(self, case, h):
